@@ -158,7 +158,22 @@ def split_top(s, sep):
 
 
 def star_then_wild(pp):
-    return any(len(t) >= 2 and t[0] == 's' and t[1][0] in 'qbx' for t in seg_lists(pp))
+    """a segment that begins with `*` directly followed by a wildcard (`?`, bracket, group) - also when that beginning
+    stands inside an alternative of a group which itself begins the segment (`+(*?|x)`, `@(*)?a`)"""
+    return any(stw_seq(t) for t in top_tokens(pp))
+
+
+def stw_seq(toks):
+    if len(toks) >= 2 and toks[0] == 's' and toks[1][0] in 'qbx':
+        return True
+    if toks and toks[0].startswith('x'):
+        for alt in split_top(toks[0][3:-1], ';'):
+            at = [u for u in split_top(alt, '.') if u]
+            # the alternative, continued by what follows the group - and by the group itself again when it repeats
+            again = [toks[0]] if toks[0][1] in 'SP' else []
+            if stw_seq(at + toks[1:]) or (again and stw_seq(at + again)):
+                return True
+    return False
 
 
 def dot_literal_alt(pp):
